@@ -9,6 +9,9 @@ decreasing_by omega
 
 def itoa (n : Nat) : Str := (decDigits n).map (· + 48)
 
+/-- strconv.Itoa / %d on signed integers -/
+def itoaInt (i : Int) : Str := if i < 0 then 45 :: itoa i.natAbs else itoa i.natAbs
+
 def isDigit (c : Nat) : Bool := 48 ≤ c && c ≤ 57
 
 /-- value of a digit string, left fold. -/
